@@ -43,6 +43,8 @@ enum Harm {
     TransportError,
     Nxdomain,
     ForgedNxdomainBelowCut,
+    /// The RRset of a wildcard above a blocking name, re-owned to the query name.
+    WildcardReplay,
 }
 
 #[derive(Default)]
@@ -75,6 +77,35 @@ impl GetResponse for UpReq {
     }
 }
 
+/// The resolver behind `net::client::validator::Connection`: hands out the
+/// response staged for the query under test.
+#[derive(Clone)]
+struct FinalUp {
+    staged: Arc<Mutex<Option<Resp>>>,
+    seen_flags: Arc<Mutex<Option<(bool, bool)>>>, // (DO, CD) of the forwarded request
+}
+
+impl SendRequest<RequestMessage<Vec<u8>>> for FinalUp {
+    fn send_request(&self, req: RequestMessage<Vec<u8>>) -> Box<dyn GetResponse + Send + Sync> {
+        let staged = self.staged.clone();
+        let seen = self.seen_flags.clone();
+        let fut = async move {
+            let msg = req.to_message().expect("request");
+            *seen.lock().unwrap() = Some((msg.opt().is_some_and(|o| o.dnssec_ok()), msg.header().cd()));
+            let r = staged.lock().unwrap().take().expect("a staged response");
+            let mut bytes = to_message(&msg, &r);
+            // An upstream's own AD bit means nothing to a validator.
+            if sim::chance("final_up.lying_ad", 1, 2) {
+                bytes[3] |= 0x20;
+            }
+            Ok(Message::from_octets(Bytes::from(bytes)).expect("message"))
+        };
+        Box::new(UpReq {
+            fut: Some(Box::pin(SyncFut(Box::pin(fut)))),
+        })
+    }
+}
+
 struct SyncFut<T>(Pin<Box<dyn Future<Output = T> + Send>>);
 unsafe impl<T> Sync for SyncFut<T> {}
 impl<T> Future for SyncFut<T> {
@@ -90,7 +121,7 @@ fn harm(r: &mut Resp, h: Harm, world: &World) -> bool {
     use domain::rdata::ZoneRecordData as D;
     let is_sig = |rec: &super::dnssec_world::SRec| rec.rtype() == Rtype::RRSIG;
     match h {
-        Harm::None | Harm::TransportError | Harm::Nxdomain | Harm::ForgedNxdomainBelowCut => false,
+        Harm::None | Harm::TransportError | Harm::Nxdomain | Harm::ForgedNxdomainBelowCut | Harm::WildcardReplay => false,
         Harm::DropRrsig => {
             // Drop every RRSIG of one signed RRset.
             let sec_is_answer = !r.answer.is_empty() && r.answer.iter().any(is_sig);
@@ -322,7 +353,7 @@ impl Scenario for ValidatorScn {
     }
 }
 
-const QUERIES: [(&str, Rtype, &str); 22] = [
+const QUERIES: [(&str, Rtype, &str); 24] = [
     ("www.zone.tld.", Rtype::A, "positive"),
     ("www.zone.tld.", Rtype::TXT, "positive"),
     ("zone.tld.", Rtype::SOA, "positive"),
@@ -335,6 +366,8 @@ const QUERIES: [(&str, Rtype, &str); 22] = [
     ("nope.zone.tld.", Rtype::A, "nxdomain"),
     ("a.nope.zone.tld.", Rtype::A, "nxdomain"),
     ("zzz.www.zone.tld.", Rtype::A, "nxdomain"),
+    ("x.sub.wild.zone.tld.", Rtype::A, "nxdomain"),
+    ("y.x.sub.wild.zone.tld.", Rtype::TXT, "nxdomain"),
     ("foo.wild.zone.tld.", Rtype::A, "wildcard"),
     ("bar.baz.wild.zone.tld.", Rtype::TXT, "wildcard"),
     ("foo.wild.zone.tld.", Rtype::MX, "wildcard-nodata"),
@@ -362,7 +395,15 @@ async fn run(_tier: Tier) {
         return;
     }
     let cfg = Config::new();
-    let vc = ValidationContext::with_config(ta, up.clone(), cfg);
+    let vc = Arc::new(ValidationContext::with_config(ta, up.clone(), cfg));
+    // A third of the runs go through the client-side wrapper and observe
+    // the AD bit / SERVFAIL it produces instead of the validation state.
+    let via_wrapper = sim::chance("via_wrapper", 1, 3);
+    let final_up = FinalUp {
+        staged: Arc::new(Mutex::new(None)),
+        seen_flags: Arc::new(Mutex::new(None)),
+    };
+    let wrapper = domain::net::client::validator::Connection::<FinalUp, Vec<u8>, Upstream>::new(final_up.clone(), vc.clone());
     let adversarial = sim::draw("adversarial", 4) != 0;
     // Clock plan: offset of the wall clock relative to the signing epoch.
     let day = 86_400i64 * 1_000_000_000;
@@ -419,6 +460,7 @@ async fn run(_tier: Tier) {
                     Harm::ExtendSigValidity,
                     Harm::DropAnswerRrset,
                     Harm::ForgedNxdomainBelowCut,
+                    Harm::WildcardReplay,
                 ],
             )
         } else {
@@ -430,6 +472,15 @@ async fn run(_tier: Tier) {
                     let insecure = r.insecure;
                     r = f;
                     r.insecure = insecure;
+                    true
+                }
+                None => false,
+            }
+        } else if final_harm == Harm::WildcardReplay {
+            match w.forged_wildcard_replay(qname, qtype) {
+                Some(f) => {
+                    r = f;
+                    sim::stat("fault.wildcard_replayed_below_blocking_name");
                     true
                 }
                 None => false,
@@ -468,7 +519,43 @@ async fn run(_tier: Tier) {
         let wall = sim::wall_secs();
         let in_window = wall >= w.inception as u64 && wall <= w.expiration as u64;
         ev!("validate #{} {} {} ({}) final_harm={:?} applied={} infra_harm={:?} wall-epoch={}d", qi, qname, qtype, class, final_harm, final_harmed, infra_harm, (wall as i64 - sim::EPOCH_BASE as i64) / 86_400);
-        let res = vc.validate_msg::<Vec<u8>, Vec<u8>>(&mut msg).await;
+        // (DO, AD, CD) of the caller's request when going through the wrapper.
+        let caller_flags = if via_wrapper {
+            match sim::draw("wrapper.flags", 6) {
+                0 | 1 => (true, false, false),
+                2 => (false, true, false),
+                3 => (true, true, false),
+                4 => (false, false, false),
+                _ => (sim::chance("wrapper.cd_do", 1, 2), false, true),
+            }
+        } else {
+            (false, false, false)
+        };
+        let mut wrapped: Option<Result<Message<Bytes>, Error>> = None;
+        let res = if via_wrapper {
+            sim::stat("probe.via_client_wrapper");
+            *final_up.staged.lock().unwrap() = Some(r.clone());
+            let mut creq = RequestMessage::new(req_msg.clone()).expect("request");
+            if caller_flags.0 {
+                creq.set_dnssec_ok(true);
+            }
+            creq.header_mut().set_ad(caller_flags.1);
+            creq.header_mut().set_cd(caller_flags.2);
+            let mut g = SendRequest::send_request(&wrapper, creq);
+            let out = g.get_response().await;
+            // Translate into what validate_msg would have said, as far as
+            // the wrapper's output shows it.
+            let translated = match &out {
+                Ok(m) if m.header().ad() => Ok((ValidationState::Secure, None)),
+                Ok(m) if m.header().rcode() == domain::base::iana::Rcode::SERVFAIL => Ok((ValidationState::Bogus, None)),
+                Ok(_) => Ok((ValidationState::Insecure, None)),
+                Err(_) => Ok((ValidationState::Bogus, None)),
+            };
+            wrapped = Some(out);
+            translated
+        } else {
+            vc.validate_msg::<Vec<u8>, Vec<u8>>(&mut msg).await
+        };
         sim::sync_clock();
         let (infra_applied, infra_queries) = {
             let g = up.st.lock().unwrap();
@@ -515,6 +602,41 @@ async fn run(_tier: Tier) {
         if secure && !expect_secure {
             sim::violation(P, "soundness", format!("secure-for-insecure-data/{}", class), format!("{} {}: data from the unsigned zone reported Secure", qname, qtype));
             return;
+        }
+        // ---- what the wrapper makes of it
+        if let Some(out) = &wrapped {
+            let (c_do, c_ad, c_cd) = caller_flags;
+            match final_up.seen_flags.lock().unwrap().take() {
+                Some((fdo, fcd)) if fdo && fcd => {}
+                other => {
+                    sim::violation(P, "wrapper", "upstream-request-without-do-or-cd".to_string(), format!("the wrapper forwarded the request with (DO, CD) = {:?}; it cannot validate without the DNSSEC records", other));
+                    return;
+                }
+            }
+            if let Ok(m) = out {
+                let v = crate::dns::view(m.as_slice());
+                if c_cd && m.header().ad() {
+                    sim::violation(P, "wrapper", "ad-set-on-unvalidated-response".to_string(), format!("{} {}: the caller set CD, nothing was validated, and the response carries AD", qname, qtype));
+                    return;
+                }
+                if !c_do && !matches!(qtype, Rtype::RRSIG | Rtype::NSEC | Rtype::NSEC3 | Rtype::DNSKEY | Rtype::DS) {
+                    if let Some(v) = &v {
+                        if v.recs.iter().any(|x| matches!(x.rtype, Rtype::RRSIG | Rtype::NSEC | Rtype::NSEC3)) {
+                            sim::violation(P, "wrapper", "dnssec-records-without-do".to_string(), format!("{} {}: the caller did not set DO and got DNSSEC records", qname, qtype));
+                            return;
+                        }
+                    }
+                }
+                if m.header().ad() && !(c_do || c_ad) {
+                    sim::violation(P, "wrapper", "ad-set-unasked".to_string(), format!("{} {}: AD set although the caller set neither AD nor DO", qname, qtype));
+                    return;
+                }
+            }
+            // Completeness through the wrapper is only visible when the
+            // caller asked for the AD bit and did not disable checking.
+            if c_cd || !(c_do || c_ad) {
+                continue;
+            }
         }
         // ---- completeness
         if !harmed && in_window && clock_plan != 7 && clock_plan != 8 {
